@@ -123,8 +123,8 @@ inline Datum genDatum(Src &s, int kind, const DatumOpt &o = DatumOpt()) {
 
 // malformed program-data fragments (never valid as a parameter)
 inline std::string genMalformed(Src &s) {
-    static const char *frag[] = {"\"abc", "'abc", "#", "#Z12", "#0", "#3ab", "@", "!", ")", "(1", "1 2", "\x80", "\xff\xfe", "$", "#H", "#B2", "1,,2", "\"a\"b", "(a(b))", "=", "#12a"};
-    return frag[s.range(0, 20)];
+    static const char *frag[] = {"\"abc", "'abc", "#", "#Z12", "#0", "#3ab", "@", "!", ")", "(1", "1 2", "\x80", "\xff\xfe", "$", "#H", "#B2", "1,,2", "\"a\"b", "(a(b))", "="};
+    return frag[s.range(0, 19)];
 }
 
 // ------------------------------------------------------------------ result items
